@@ -472,3 +472,114 @@ Proof.
   change [] with (filter (tok_known (ng_tokdict M)) []) at 1. rewrite map_nth.
   unfold doc_grams. rewrite kept_strip. reflexivity.
 Qed.
+
+(* ================= dictionaries learned without pruning ================= *)
+Lemma invert_fst d : map fst (invert d) = map snd d.
+Proof. unfold invert. rewrite map_map. reflexivity. Qed.
+Lemma invert_snd d : map snd (invert d) = map fst d.
+Proof. unfold invert. rewrite map_map. reflexivity. Qed.
+
+Lemma invert_inverse_ok d : NoDup (map snd d) -> inverse_ok d (invert d).
+Proof.
+  intros ND l i H. apply lookup_NoDup_In; [rewrite invert_fst; exact ND|].
+  apply lookup_In in H. unfold invert. apply in_map_iff. exists (l, i). split; [reflexivity|exact H].
+Qed.
+
+Lemma learn_tokdict_known docs d t : In d docs -> In t d -> tok_known (learn_tokdict docs) t = true.
+Proof.
+  intros Hd Ht. unfold tok_known, learn_tokdict.
+  destruct (learned_lookup (concat docs) t) as [i Hi]; [apply in_concat; eauto|]. rewrite Hi. reflexivity.
+Qed.
+
+Lemma learn_tokdict_known_doc docs d : In d docs -> known (learn_tokdict docs) d = d.
+Proof. intros Hd. unfold known. apply filter_all_true. intros t Ht. eapply learn_tokdict_known; eassumption. Qed.
+
+Lemma glookup_bare_dict d k : glookup k (bare_dict d) = match k with Bare l => lookup l d | Tup _ => None end.
+Proof.
+  unfold glookup, lookup, bare_dict. induction d as [|[l' v] d IH]; cbn [map alookup fst snd]; [destruct k; reflexivity|].
+  destruct k as [l|g]; cbn [gkey_eqb]; [|exact IH]. destruct (l' =? l); [reflexivity|exact IH].
+Qed.
+
+Lemma bare_dict_snd d : map snd (bare_dict d) = map snd d.
+Proof. unfold bare_dict. rewrite map_map. reflexivity. Qed.
+
+Lemma learn_coldict_inj tokdict inv n b docs : NoDup (map snd tokdict) -> gdict_inj (learn_coldict tokdict inv n b docs).
+Proof.
+  intros ND. apply NoDup_values_ginj. unfold learn_coldict. destruct (n =? 1)%nat.
+  - rewrite bare_dict_snd. exact ND.
+  - rewrite map_snd_combine by (rewrite !map_length, seq_length; reflexivity). apply NoDup_nat_seq_Z.
+Qed.
+
+Lemma label_of_idx tokdict inv l :
+  inverse_ok tokdict inv -> tok_known tokdict l = true -> label_of inv (idx_of tokdict l) = l.
+Proof.
+  intros W H. unfold tok_known in H. unfold label_of, idx_of.
+  destruct (lookup l tokdict) as [i|] eqn:E; [|discriminate]. rewrite (W l i E). reflexivity.
+Qed.
+
+Lemma learn_coldict_has tokdict inv n b docs d G0 :
+  inverse_ok tokdict inv -> (n <> 1)%nat -> In d docs -> known tokdict d = d -> In G0 (ngrams_of d n b) ->
+  exists c, glookup (Tup G0) (learn_coldict tokdict inv n b docs) = Some c.
+Proof.
+  intros W Hn Hd Hk HG. apply glookup_key. unfold learn_coldict.
+  replace (n =? 1)%nat with false by (symmetry; apply Nat.eqb_neq; exact Hn).
+  rewrite map_fst_combine by (rewrite !map_length, seq_length; reflexivity).
+  set (g := map (idx_of tokdict) G0).
+  assert (HF : Forall (fun l => tok_known tokdict l = true) G0).
+  { pose proof (ngrams_of_Forall (fun l => tok_known tokdict l = true) d n b) as H.
+    rewrite <- Hk in H at 1. specialize (H (known_Forall tokdict d)). rewrite Forall_forall in H. apply H, HG. }
+  assert (Hg : map (label_of inv) g = G0).
+  { unfold g. rewrite map_map. rewrite <- (map_id G0) at 2. apply map_ext_in. intros l Hl.
+    rewrite Forall_forall in HF. apply label_of_idx; [exact W|apply HF, Hl]. }
+  rewrite <- Hg. apply in_map_iff. exists g. split; [reflexivity|].
+  eapply Permutation_in; [apply Permutation_sym, isort_by_perm|]. apply nodup_In.
+  apply in_concat. exists (ngrams_of (kept tokdict d) n b). split.
+  - apply in_map_iff. exists d. split; [reflexivity|exact Hd].
+  - rewrite kept_known, Hk, ngrams_of_map. apply in_map. exact HG.
+Qed.
+
+Lemma ngrams_1_length {A} (s : list A) b G : In G (ngrams_of s 1 b) -> length G = 1%nat.
+Proof.
+  unfold ngrams_of. intros H. apply in_flat_map in H. destruct H as [i [_ H]]. destruct b.
+  - destruct (i + 1 <=? length s)%nat eqn:E; [|destruct H]. destruct H as [<-|[]].
+    apply slice_length. apply Nat.leb_le. exact E.
+  - cbn [seq flat_map] in H. rewrite app_nil_r in H.
+    destruct (i + 1 <=? length s)%nat eqn:E; [|destruct H]. destruct H as [<-|[]].
+    apply slice_length. apply Nat.leb_le. exact E.
+Qed.
+
+Lemma ng_fit_learned_wf n b docs : ng_wf (fst (ng_fit None None n b docs)).
+Proof.
+  unfold ng_fit, ng_wf, ng_tokdict, ng_inv, ng_cold; cbn [fst snd]. split.
+  - apply invert_inverse_ok. apply enum_dict_values_NoDup.
+  - apply learn_coldict_inj. apply enum_dict_values_NoDup.
+Qed.
+
+Theorem ng_fit_learned_cell docs n b d G0 i :
+  In d docs -> In G0 (ngrams_of d n b) -> (n = 1%nat \/ length G0 <> 1%nat) -> (i < length docs)%nat ->
+  exists c0, glookup (gram_key G0) (ng_cold (fst (ng_fit None None n b docs))) = Some c0 /\
+             cell (entries (snd (ng_fit None None n b docs))) (Z.of_nat i) c0
+             = Z.of_nat (count_occ gram_dec (ngrams_of (nth i docs []) n b) G0).
+Proof.
+  intros Hd HG Hlen Hi.
+  pose proof (ng_fit_learned_wf n b docs) as W.
+  assert (Hex : exists c0, glookup (gram_key G0) (ng_cold (fst (ng_fit None None n b docs))) = Some c0).
+  { unfold ng_fit, ng_cold; cbn [fst snd]. destruct (Nat.eq_dec n 1) as [->|Hn].
+    - pose proof (ngrams_1_length _ _ _ HG) as HL. destruct G0 as [|l [|l2 G0]]; try discriminate.
+      cbn [gram_key]. unfold learn_coldict. cbn [Nat.eqb]. rewrite glookup_bare_dict.
+      apply lookup_key. unfold learn_tokdict. rewrite enum_dict_keys. apply sort_uniq_In. apply in_concat.
+      exists d. split; [exact Hd|]. pose proof (ngrams_of_Forall (fun x => In x d) d 1 b) as HF.
+      assert (Hall : Forall (fun x => In x d) d) by (apply Forall_forall; tauto).
+      specialize (HF Hall). rewrite Forall_forall in HF. specialize (HF _ HG). inversion HF; assumption.
+    - destruct Hlen as [->|Hlen]; [congruence|].
+      replace (gram_key G0) with (Tup G0) by (destruct G0 as [|l [|l2 G0]]; cbn in *; congruence).
+      apply (learn_coldict_has _ _ n b docs d G0); try assumption.
+      + apply invert_inverse_ok, enum_dict_values_NoDup.
+      + apply learn_tokdict_known_doc. exact Hd. }
+  destruct Hex as [c0 H0]. exists c0. split; [exact H0|].
+  unfold ng_fit at 1; cbn [snd]. fold (fst (ng_fit None None n b docs)).
+  change (ng_transform _ docs) with (ng_transform (fst (ng_fit None None n b docs)) docs).
+  rewrite (ng_cell _ docs i G0 c0 W Hi H0). f_equal. unfold label_grams.
+  unfold ng_fit, ng_tokdict, ng_n, ng_beh; cbn [fst snd].
+  rewrite learn_tokdict_known_doc by (apply nth_In; exact Hi). reflexivity.
+Qed.
